@@ -47,13 +47,13 @@ var badVectors = []struct {
 	ver byte
 	hex string
 }{
-	{4, "36 05 00 01 61 00 01"},    // qos 3
-	{4, "38 05 00 01 61 68 69"},    // dup with qos 0
-	{4, "80 06 00 01 00 01 61 01"}, // subscribe flags 0000
-	{5, "20 03 02 00 00"},          // connack reserved flags
-	{4, "20 02 00 06"},             // v3 return code 6
-	{5, "40 03 00 0a 05"},          // puback reason 5 undefined
-	{4, "90 03 00 01 03"},          // v3 suback code 3
+	{4, "36 05 00 01 61 00 01"},                // qos 3
+	{4, "38 05 00 01 61 68 69"},                // dup with qos 0
+	{4, "80 06 00 01 00 01 61 01"},             // subscribe flags 0000
+	{5, "20 03 02 00 00"},                      // connack reserved flags
+	{4, "20 02 00 06"},                         // v3 return code 6
+	{5, "40 03 00 0a 05"},                      // puback reason 5 undefined
+	{4, "90 03 00 01 03"},                      // v3 suback code 3
 	{5, "32 0a 00 01 61 00 0a 02 23 00 68 69"}, // topic alias truncated inside props -> malformed/short
 	{5, "30 08 00 01 61 03 24 01 68 69"},       // Maximum QoS property in PUBLISH
 	{4, "30 05 00 01 ff 68 69"},                // invalid utf-8 topic
